@@ -71,6 +71,7 @@ func init() {
 	reg("C08", "exploration", false, 60000, 40, 2000000, 240, 3)
 	reg("C17", "exploration", false, 150000, 30, 6000000, 200, 3)
 	reg("C19", "fault_enumeration", false, 40000, 40, 1000000, 240, 3)
+	reg("C20", "exploration", false, 60000, 40, 2000000, 240, 3)
 	reg("C04", "exploration", false, 100000, 30, 4000000, 240, 3)
 }
 
